@@ -109,11 +109,15 @@ def search(ctx, boost=False):
     rng = ctx.rng
     seqs = [[a] for a in allr]
     seqs += [[a, b] for a in allr for b in allr] if (ctx.thorough or boost) else [[a, b] for a in cls for b in cls] + [[rng.choice(allr), rng.choice(allr)] for _ in range(4000)]
+    # word-like and numeric texts are where fusions live: all triples of those (with '.', '-', '+') as well
+    coll = reps.typed(reps.NAMES + reps.INTS + reps.FLOATS + [".", "...", "-", "+", "::", "->"])
     if ctx.thorough or boost:
         seqs += [list(t) for t in itertools.product(cls, repeat=3)]
+        seqs += [list(t) for t in itertools.product(coll, repeat=3)]
         s.exhaustive = True
     else:
         seqs += [[rng.choice(cls) for _ in range(3)] for _ in range(6000)]
+        seqs += [[rng.choice(coll) for _ in range(3)] for _ in range(12000)]
     for _ in range(ctx.scale(3000, 60000)):
         seqs.append(rand_tokens(rng, rng.choice([2, 4, 8, 20])))
     for src in impl.corpus():
